@@ -14,7 +14,7 @@ import (
 func propC09() *fw.Prop {
 	return &fw.Prop{
 		ID: "C09", Level: "exploration",
-		Rule:        "metamorphic monitor over executions of the real interpreter only: for a generated script S1..Sn (2–6 statements biased to chains over 3 accounts, shared metadata keys, no balance-reading variables) and EVERY split point k, run(S1..Sn,B) must equal run(S1..Sk,B) followed by run(Sk+1..Sn,B') where B' = B updated with the first run's real postings and the save rule: postings concatenate, tx/account metadata merge last-writer-wins, failures agree in class. Distinct = (script shape, k) where the second half draws from an account whose balance the first half changed.",
+		Rule:        "metamorphic monitor over executions of the real interpreter only: for a generated script S1..Sn (2–6 statements biased to chains over 3 accounts, shared metadata keys, no balance-reading variables) and EVERY split point k, run(S1..Sn,B) must equal run(S1..Sk,B) followed by run(Sk+1..Sn,B') where B' = B updated with the first run's real postings and the save rule: postings concatenate, tx/account metadata merge last-writer-wins, failures agree in class. Distinct = (script shape, k) where the second half draws from an account whose balance the first half changed. Added later: a stratum of several statements in a row whose sources are flat lists of 12..40 funded accounts; half of the cases run (whole and halves alike) against a store that leaves out the balances it has no record of.",
 		Assumptions: []string{trustedBase, "the save rule (visible balance lowered, floored at zero, negative untouched) is the only model ingredient; save operands are evaluated with the model's expression evaluator"},
 		Require:     []string{"splits_checked", "splits_where_second_half_depends_on_first", "splits_full_run_failed", "splits_with_save_in_first_half", "splits_with_metadata_override"},
 		Run:         runC09,
